@@ -86,10 +86,13 @@ Section Render.
     end.
 
   (* RenderContext::get_partial *)
+  Definition current_pb (s : rstate) : option (template * Z) :=
+    let len := Z.of_nat (length (s_pb_stack s)) in
+    if Z.ltb (s_pb_depth s) 1 || Z.ltb len (s_pb_depth s) then None
+    else nth_error (s_pb_stack s) (Z.to_nat (len - s_pb_depth s)).
+
   Definition get_partial (s : rstate) (name : str) : option template :=
-    if str_eqb name PARTIAL_BLOCK then
-      (if Z.ltb (s_pb_depth s) 0 then None
-       else nth_error (s_pb_stack s) (Z.to_nat (s_pb_depth s)))
+    if str_eqb name PARTIAL_BLOCK then option_map fst (current_pb s)
     else map_get (s_partials s) name.
 
   (* ---------- call_inner of the value-returning helpers ---------- *)
@@ -235,8 +238,10 @@ Section Render.
     match fuel with
     | O => RFuel
     | S f =>
-        fold_idx (fun e idx s' => rmap_err (render_element f e s') (attach_render t idx))
-                 (t_els t) O (set_current s (t_name t))
+        (* the name of the enclosing template is put back once every element has rendered *)
+        rbind (fold_idx (fun e idx s' => rmap_err (render_element f e s') (attach_render t idx))
+                        (t_els t) O (set_current s (t_name t)))
+              (fun _ s' => ROk tt (set_current s' (s_current s)))
     end
 
   with eval_template (fuel : nat) (t : template) (s : rstate) {struct fuel} : rres unit :=
@@ -652,6 +657,7 @@ Section Render.
         rbind (match dv_tpl d with Some t => eval_template f t s | None => ROk tt s end) (fun _ s1 =>
           let tname := dv_name d in
           let current_before := s_current s1 in
+          let depth_before := s_pb_depth s1 in
           let indent_before := s_indent s1 in
           if match s_current s1 with Some c => str_eqb c tname | None => false end
           then rfail RCannotIncludeSelf s1
@@ -673,8 +679,13 @@ Section Render.
             | None => rfail (RPartialNotFound tname) s1
             | Some partial =>
                 let s2 :=
-                  if str_eqb tname PARTIAL_BLOCK then set_pb_depth s1 (s_pb_depth s1 + 1)%Z
-                  else if Z.ltb 0 (s_pb_depth s1) then set_pb_depth s1 (s_pb_depth s1 - 1)%Z
+                  (* inside the body of a partial block, @partial-block is the one of the template
+                     the body was written in *)
+                  if str_eqb tname PARTIAL_BLOCK then
+                    match current_pb s1 with
+                    | Some (_, d0) => set_pb_depth s1 d0
+                    | None => s1
+                    end
                   else s1 in
                 let hash_ctx := map (fun kv : str * pj => (fst kv, pj_value (snd kv))) (dv_hash d) in
                 rbind
@@ -693,7 +704,9 @@ Section Render.
                      let current_blocks := s_blocks s3 in
                      let s4 := set_blocks s3 [b_set_base_value block_new merged] in
                      let s5 := match dv_tpl d with
-                               | Some pb => set_pb_stack s4 (pb :: s_pb_stack s4)
+                               | Some pb =>
+                                   set_pb_depth (set_pb_stack s4 ((pb, s_pb_depth s4) :: s_pb_stack s4))
+                                                (Z.of_nat (S (length (s_pb_stack s4))))
                                | None => s4
                                end in
                      let s6 := set_indent s5 (dv_indent d) in
@@ -702,7 +715,8 @@ Section Render.
                                  | Some _ => set_pb_stack s (tl (s_pb_stack s))
                                  | None => s
                                  end in
-                       set_indent (set_current (set_blocks sa current_blocks) current_before) indent_before in
+                       set_indent (set_pb_depth (set_current (set_blocks sa current_blocks) current_before)
+                                                depth_before) indent_before in
                      match render_template f partial s6 with
                      | ROk u s7 => ROk u (cleanup s7)
                      | RErr e s7 => RErr e (cleanup s7)
